@@ -60,6 +60,17 @@ class Lst:
         self.items = list(items)
 
 
+class Encoded:
+    """s.encode(<a UTF encoding>): only its length is modelled - an uninterpreted function of the string, at least one code
+    unit per character."""
+
+    def __init__(self, s):
+        self.s = s
+
+
+ENCODED_LEN = z3.Function("encoded_len", z3.StringSort(), z3.IntSort())
+
+
 class Closure:
     def __init__(self, node, frame, name=None):
         self.node, self.frame, self.name = node, frame, name
@@ -662,6 +673,8 @@ class Executor:
         r = self.model.getattr(self, st, obj, name, node)
         if r is not NotImplemented:
             return r if isinstance(r, list) else [Path(st, "normal", r)]
+        if is_z3(obj) and z3.is_string(obj) and name == "encode":
+            return [Path(st, "normal", BoundNative(Encoded(obj), "__encode__"))]
         if isinstance(obj, Obj):
             if (obj.oid, name) in st.fields:
                 return [Path(st, "normal", st.fields[(obj.oid, name)])]
@@ -741,6 +754,12 @@ class Executor:
             return r
         if isinstance(f, Closure):
             return self.call_closure(st, f, args, kwargs)
+        if isinstance(f, BoundNative) and f.name == "__encode__":
+            return [Path(st, "normal", f.obj)]
+        if isinstance(f, PyConst) and f.obj is len and len(args) == 1 and isinstance(args[0], Encoded):
+            n = ENCODED_LEN(args[0].s)
+            st.pc.append(n >= z3.Length(args[0].s))
+            return [Path(st, "normal", n)]
         if isinstance(f, PyConst) and f.obj is len and len(args) == 1:
             a = args[0]
             if is_z3(a) and z3.is_string(a):
